@@ -61,6 +61,9 @@ exactly representable integers is the same double as the Rust literal; in a fiel
 @[inline] def absv [Neg α] [LT α] [DecidableLT α] [NatCast α] (x : α) : α :=
   if x < nat 0 then -x else x
 
+/-- `a.max(b)` of `num::Float` for non-NaN arguments (the sign of a zero result is not observable in the crate) -/
+@[inline] def maxv [LT α] [DecidableLT α] (a b : α) : α := if a < b then b else a
+
 /-- checked `usize` subtraction -/
 @[inline] def usub (a b : Nat) : M Nat := if b ≤ a then pure (a - b) else throw .usizeUnderflow
 
